@@ -499,7 +499,7 @@ func (h *harness) finalOracles(withC01Sets bool) finalView {
 				for f := range F {
 					found := false
 					for _, ph := range []string{"do", "undo"} {
-						if strings.Contains(err.Error(), fmt.Sprintf("- task-%d (boom-%d-%s)", f, f, ph)) {
+						if strings.Contains(err.Error(), fmt.Sprintf("- task-%d (boom-%d-%s)", f, f%2, ph)) {
 							found = true
 						}
 					}
